@@ -142,6 +142,7 @@ class Ctx:
     def __init__(self):
         self.worst_apply = 0.0
         self.worst_file = 0.0
+        self.saves = 0
         self.kept_by = {}  # overwrite flag -> set of observations (True kept / False dropped)
 
 
@@ -215,6 +216,7 @@ def check_history(case: dict, tmpdir: str, post, ctx: Ctx):
             fails.append(("C17.save_raises", tag + "save(%s) onto %s file raised %s: %s" % (
                 kw, "an existing" if (idx or case.get("pre")) else "a fresh", type(e).__name__, e)))
             return fails
+        ctx.saves += 1
         want = stats_of(x)
         # ---- file contents with numpy's own reader
         used_key = None
@@ -443,7 +445,7 @@ def run(tier: str, seed: int) -> dict:
                 col.fail(clause, case, msg)
     finally:
         shutil.rmtree(tmpdir, ignore_errors=True)
-    col.note("cases per kind: %s" % kinds)
+    col.note("cases per kind: %s; %d successful save calls inspected and reloaded" % (kinds, ctx.saves))
     col.note("worst relative difference reloaded.apply vs original.apply: %.3g (tolerance 1e-12); worst stored-statistics "
              "difference from the definition: %.3g (tolerance 1e-9)" % (ctx.worst_apply, ctx.worst_file))
     direction = {str(k): sorted(v) for k, v in ctx.kept_by.items()}
